@@ -584,6 +584,7 @@ func Ints(errBuf *strings.Builder, validName, objName, fieldName string, tv refl
 	valStr := ""
 	errSuffix := ""
 	_, split, cusMsg := ParseValidNameKV(validName)
+	split = strings.Trim(split, "'") // 去掉保护用的单引号
 	if split == "" {
 		split = ","
 	}
@@ -740,7 +741,7 @@ func Prefix(errBuf *strings.Builder, validName, objName, fieldName string, tv re
 		return
 	}
 	_, prefix, cusMsg := ParseValidNameKV(validName)
-	if strings.HasPrefix(tv.String(), prefix) {
+	if strings.HasPrefix(tv.String(), strings.Trim(prefix, "'")) {
 		return
 	}
 	if cusMsg != "" {
@@ -757,7 +758,7 @@ func Suffix(errBuf *strings.Builder, validName, objName, fieldName string, tv re
 		return
 	}
 	_, suffix, cusMsg := ParseValidNameKV(validName)
-	if strings.HasSuffix(tv.String(), suffix) {
+	if strings.HasSuffix(tv.String(), strings.Trim(suffix, "'")) {
 		return
 	}
 	if cusMsg != "" {
